@@ -85,7 +85,7 @@ def point_dominates(body, a, b, dom=None):
     return b[0] in dom and a[0] in dom[b[0]]
 
 
-def path_avoiding(body, start_pt, targets, barriers, start_inclusive=False, succs=None):
+def path_avoiding(body, start_pt, targets, barriers, start_inclusive=False, succs=None, start_is_target=True):
     """Find a CFG path from program point start_pt (exclusive) to any block in `targets`
     (a set of bbs, reached at their entry... a target block counts when its *terminator* is
     reached) that does not pass any barrier point.
@@ -104,7 +104,7 @@ def path_avoiding(body, start_pt, targets, barriers, start_inclusive=False, succ
         if i > si or (start_inclusive and i == si):
             return None
     targets = set(targets)
-    if sb in targets:
+    if sb in targets and start_is_target:
         return [sb]
     succs = succs or body.succs()
     prev = {}
